@@ -10,6 +10,10 @@
    blob before or after it rewrites index.json).  The theorems are stated for the model
    of the CURRENT source; they stop checking when the source order changes. *)
 From Oras Require Import Base.Prelude Generated.GC10 Model.OciCrash Model.OciCrashSpec Proofs.OciCrash.
+From Oras Require Model.OciGC Proofs.OciGC.
+From Oras Require Import Proofs.OciCrashGC.
+From Oras Require Import Model.OciCrashConc Proofs.OciCrashConc.
+From Oras Require Import Proofs.OciCrashOff Proofs.OciCrashSync.
 
 (* For every digest/size verification function H, every iteration order of saveIndex,
    every history h of completed Push/Tag/Untag/Delete/SaveIndex operations on a freshly
@@ -131,6 +135,53 @@ Theorem C10_gc_crash_safe :
 Proof. exact gc_crash_safe_src. Qed.
 Print Assumptions C10_gc_crash_safe.
 
+(* Bridge to C09 (Model/OciGC.v: WHAT Delete-with-AutoGC and GC remove, proved exact there).  The
+   hypotheses of the two theorems above are derived from C09's characterisation of the removed
+   sets, for every enumeration of them, given only that the two models agree on which nodes
+   carry a reference name (node n of the C09 model = blob N.of_nat n here):
+   the nodes C09's Delete removes besides its target ([Gone]) ... *)
+Theorem C10_cascade_of_gc_model :
+  forall (H : list N -> N) (shuffle : nat -> list entry -> list entry),
+    (forall c l e, In e (shuffle c l) <-> In e l) ->
+    forall succ subject manifest (g : Oras.Model.OciGC.state) (x : nat) (h : list hop) (xs : list nat) (k : nat),
+      let s := runc H shuffle src_inplace src_unlink_first true h init in
+      names_agree g s ->
+      (forall y, In y xs -> Oras.Proofs.OciGC.Gone succ subject manifest g x y /\ y <> x) ->
+      let os := Delete (N.of_nat x) :: map Delete (map N.of_nat xs) in
+      let fsk := crash_seq H shuffle src_inplace src_unlink_first true s os k in
+      same_tags fsk (sfs s) \/ same_tags fsk (sfs (run H shuffle src_inplace src_unlink_first true os s)).
+Proof. exact cascade_of_gc_model_src. Qed.
+Print Assumptions C10_cascade_of_gc_model.
+
+(* ... and the stored nodes outside C09's live set ([Live]) that GC sweeps. *)
+Theorem C10_gc_of_gc_model :
+  forall (H : list N -> N) (shuffle : nat -> list entry -> list entry),
+    (forall c l e, In e (shuffle c l) <-> In e l) ->
+    forall succ subject manifest (g : Oras.Model.OciGC.state) (h : list hop) (live : list N) (xs : list nat) (k : nat),
+      let s := runc H shuffle src_inplace src_unlink_first true h init in
+      names_agree g s ->
+      (forall z, In z live -> exists n, z = N.of_nat n /\ Oras.Proofs.OciGC.Live succ subject manifest g n) ->
+      (forall y, In y xs -> In y (Oras.Model.OciGC.blobs g) /\ ~ Oras.Proofs.OciGC.Live succ subject manifest g y) ->
+      let os := gc_ops live (map N.of_nat xs) in
+      let fsk := crash_seq H shuffle src_inplace src_unlink_first true s os k in
+      same_tags fsk (sfs s) /\
+      (read_index fsk = read_index (sfs s) \/
+       read_index fsk = read_index (sfs (run_op H shuffle src_inplace src_unlink_first true s (Forget live)))).
+Proof. exact gc_of_gc_model_src. Qed.
+Print Assumptions C10_gc_of_gc_model.
+
+(* the agreement hypothesis is satisfiable (a layer and a tagged manifest in both models) *)
+Example C10_names_agree_example :
+  let Hf := fun c : list N => match c with [7] => 1 | [9] => 2 | _ => 0 end in
+  let s := runc Hf (fun _ l => l) src_inplace src_unlink_first true
+             [Done (Push 1 [7] false); Done (Push 2 [9] true); Done (Tag 2 5)] init in
+  let g := {| Oras.Model.OciGC.blobs := [1; 2]%nat;
+              Oras.Model.OciGC.idx := [(Oras.Model.OciGC.RDig 2, 2%nat); (Oras.Model.OciGC.RTag 5, 2%nat)];
+              Oras.Model.OciGC.gnodes := [1; 2]%nat; Oras.Model.OciGC.strays := [];
+              Oras.Model.OciGC.autogc := true |} in
+  names_agree g s /\ read_index (sfs s) = Some [(2, Some 5)].
+Proof. exact names_agree_example. Qed.
+
 (* the tag mapping a reader derives from index.json is the one before or the one after *)
 Theorem C10_tag_mapping_before_or_after :
   forall (H : list N -> N) (shuffle : nat -> list entry -> list entry),
@@ -185,6 +236,19 @@ Theorem C10_completed_tag_survives_crashes :
 Proof. exact completed_tag_survives_src. Qed.
 Print Assumptions C10_completed_tag_survives_crashes.
 
+(* The converse, across any number of crashes: nothing is invented.  Every blob file under
+   blobs/ was pushed (with content that verifies) by some operation of the history, completed or
+   interrupted; every reference name in index.json was set by some Tag of the history. *)
+Theorem C10_nothing_invented :
+  forall (H : list N -> N) (shuffle : nat -> list entry -> list entry),
+    (forall c l e, In e (shuffle c l) <-> In e l) ->
+    forall (h : list hop),
+      let s := runc H shuffle src_inplace src_unlink_first true h init in
+      (forall d, exists_file (sfs s) (FBlob d) = true -> pushed_in H d h) /\
+      (forall l d r, read_index (sfs s) = Some l -> tag_of l r d -> tagged_in d r h).
+Proof. exact nothing_invented_src. Qed.
+Print Assumptions C10_nothing_invented.
+
 Example C10_survives_example :
   let H := fun c : list N => match c with [7] => 1 | [9] => 2 | _ => 0 end in
   let h := [Done (Push 2 [9] true); Done (Tag 2 5); Crashed (Push 1 [7] false) 3;
@@ -192,6 +256,203 @@ Example C10_survives_example :
   stored_since H 2 h = true /\ tagged_since H 2 5 h = true /\
   stored_since H 1 h = false /\ tagged_since H 2 6 h = false.
 Proof. vm_compute. repeat split; reflexivity. Qed.
+
+(* The API layer (Model expand / runa): a call of the Store is a list of primitives that depends
+   on the media type and on the decodability of the content -- a manifest-typed blob whose
+   bytes do not decode is stored, found unindexable and removed again by Push, and refused
+   by Tag.  "The directory can be opened again" in full: after ANY history of completed and
+   interrupted calls and ANY cut of ANY call, loadIndex succeeds -- index.json parses, every
+   entry names a blob file, and every manifest-typed entry decodes. *)
+Theorem C10_api_reopen_loads :
+  forall (H : list N -> N) (shuffle : nat -> list entry -> list entry),
+    (forall c l e, In e (shuffle c l) <-> In e l) ->
+    forall (mt dec : N -> bool) (h : list acall) (a : api) (k : nat),
+      let s := runa H shuffle src_inplace src_unlink_first true mt dec h init in
+      load_okb mt dec (crash_seq H shuffle src_inplace src_unlink_first true s (expand H mt dec s a) k) = true.
+Proof. exact api_crash_load_ok_src. Qed.
+Print Assumptions C10_api_reopen_loads.
+
+(* ... and the cut is a crash state of one primitive of the call's expansion, recoverable between
+   the quiescent states around it (all earlier theorems apply to histories of calls). *)
+Theorem C10_api_crash_safe :
+  forall (H : list N -> N) (shuffle : nat -> list entry -> list entry),
+    (forall c l e, In e (shuffle c l) <-> In e l) ->
+    forall (mt dec : N -> bool) (h : list acall) (a : api) (k : nat),
+      let s := runa H shuffle src_inplace src_unlink_first true mt dec h init in
+      let os := expand H mt dec s a in
+      let fsk := crash_seq H shuffle src_inplace src_unlink_first true s os k in
+      (exists pre o post,
+         os = pre ++ o :: post /\
+         let sj := run H shuffle src_inplace src_unlink_first true pre s in
+         Recoverable H (sfs sj) fsk (sfs (run_op H shuffle src_inplace src_unlink_first true sj o))) \/
+      (fsk = sfs (run H shuffle src_inplace src_unlink_first true os s) /\
+       layout_ok fsk /\ blob_ok H fsk /\ index_ok fsk).
+Proof. exact api_crash_safe_src. Qed.
+Print Assumptions C10_api_crash_safe.
+
+(* A history of calls IS a history of primitives with crashes, so the theorems about [runc]
+   (completed effects survive, nothing is invented, cascades, GC) speak about API histories. *)
+Theorem C10_api_history_is_primitive_history :
+  forall (H : list N -> N) (shuffle : nat -> list entry -> list entry),
+    (forall c l e, In e (shuffle c l) <-> In e l) ->
+    forall (mt dec : N -> bool) (h : list acall),
+    exists hs, runa H shuffle src_inplace src_unlink_first true mt dec h init
+               = runc H shuffle src_inplace src_unlink_first true hs init.
+Proof. exact runa_is_runc_src. Qed.
+Print Assumptions C10_api_history_is_primitive_history.
+
+(* Before the repairs of audit F2 (Push kept the undecodable manifest, Tag accepted it):
+   refuted -- loadIndex fails on the resulting index. *)
+Theorem C10_api_reopen_refuted_undecodable :
+  exists (mt dec : N -> bool) (H : list N -> N) (os : list op),
+    load_okb mt dec (sfs (run H (fun _ l => l) false false true os init)) = false.
+Proof. exact reopen_refuted_undecodable. Qed.
+Print Assumptions C10_api_reopen_refuted_undecodable.
+
+(* Concurrent callers (Model/OciCrashConc.v).  Push, Tag, Untag and SaveIndex hold the Store's
+   RWMutex for reading and run concurrently (Delete and GC run alone: the sequential model).
+   Threads execute atomic actions -- append to the own ingest file, publish it (rename to
+   blobs/<d>) once verified, update the resolver, and saveIndex as the critical section of
+   indexLock (snapshot of the resolver when the lock is taken, published by one rename).
+   For every history with earlier crashes, every set of concurrent calls and EVERY schedule
+   (list of thread ids; a crash is the configuration after any prefix): oci-layout valid,
+   every blob complete and matching its name, index.json parses and names only existing
+   blobs, and every blob that was there when the calls started is there. *)
+Theorem C10_conc_crash_safe :
+  forall (H : list N -> N) (shuffle : nat -> list entry -> list entry),
+    (forall c l e, In e (shuffle c l) <-> In e l) ->
+    forall (h : list hop) (calls : list ccall) (is : list nat),
+      let s := runc H shuffle src_inplace src_unlink_first true h init in
+      let c := sched shuffle (start H s calls) is in
+      layout_ok (cfs c) /\ blob_ok H (cfs c) /\ index_ok (cfs c) /\
+      (forall d, has (sfs s) (FBlob d) -> has (cfs c) (FBlob d)).
+Proof. exact conc_crash_safe_src. Qed.
+Print Assumptions C10_conc_crash_safe.
+
+(* ... and the tag mapping under concurrency: at every point of every schedule, a reference name in
+   index.json was there when the calls started or is set by one of the concurrent Tag calls. *)
+Theorem C10_conc_tags_origin :
+  forall (H : list N -> N) (shuffle : nat -> list entry -> list entry),
+    (forall c l e, In e (shuffle c l) <-> In e l) ->
+    forall (h : list hop) (calls : list ccall) (is : list nat),
+      let s := runc H shuffle src_inplace src_unlink_first true h init in
+      let c := sched shuffle (start H s calls) is in
+      forall l r n, read_index (cfs c) = Some l -> tag_of l r n ->
+        (exists l0, read_index (sfs s) = Some l0 /\ tag_of l0 r n) \/ In (CTag n r) calls.
+Proof. exact conc_tags_origin_src. Qed.
+Print Assumptions C10_conc_tags_origin.
+
+(* The concurrent model refines the sequential one: a call that runs ALONE (one thread, scheduled to
+   completion) leaves exactly the shared directory (all non-temporary paths) and the resolver
+   of the sequential model's operation -- the model that the kill-at-k correspondence ties to
+   the code. *)
+Theorem C10_conc_alone_refines :
+  forall (H : list N -> N) (shuffle : nat -> list entry -> list entry),
+    (forall c l e, In e (shuffle c l) <-> In e l) ->
+    forall (h : list hop) (x : ccall),
+      let s := runc H shuffle src_inplace src_unlink_first true h init in
+      exists n,
+        let c := sched shuffle (start H s [x]) (repeat 0%nat n) in
+        let s1 := run_op H shuffle src_inplace src_unlink_first true s (op_of_call x) in
+        ctags c = stags s1 /\ cdigs c = sdigs s1 /\
+        (forall p, is_temp p = false -> files (cfs c) p = files (sfs s1) p) /\ clock c = false.
+Proof. exact conc_alone_refines_src. Qed.
+Print Assumptions C10_conc_alone_refines.
+
+(* the order "publish the blob, then enter it into the resolver" is needed: a thread that tags
+   first lets saveIndex write an entry for a blob that is not there yet *)
+Theorem C10_conc_refuted_tag_before_publish :
+  exists (H : list N -> N) (t : thread) (is : list nat),
+    let c := sched (fun _ l => l) (mkConf init_fs [] [] false 0 [t]) is in
+    ~ index_ok (cfs c).
+Proof. exact conc_unsafe_tag_before_publish. Qed.
+Print Assumptions C10_conc_refuted_tag_before_publish.
+
+Example C10_conc_example :
+  let H := fun c : list N => match c with [7] => 1 | [8] => 2 | [9] => 3 | _ => 0 end in
+  let id := fun (_ : nat) (l : list entry) => l in
+  let s := runc H id src_inplace src_unlink_first true [Done (Push 3 [9] true)] init in
+  let c := sched id (start H s [CPush 1 [7] true; CPush 2 [8] true; CTag 3 5]) [0; 2; 0; 2; 2; 0; 2; 0; 1; 2]%nat in
+  read_index (cfs c) = Some [(3, Some 5)] /\
+  exists_file (cfs c) (FBlob 1) = true /\ exists_file (cfs c) (FBlob 2) = false /\
+  cdigs c = [1; 3] /\ clock c = false.
+Proof. vm_compute. repeat split; reflexivity. Qed.
+
+(* What indexLock is for.  A history alternates sequential phases (any operations, Delete and GC
+   included, completed or interrupted with the store reopened: PSeq), batches of concurrent
+   Push / Tag / Untag / SaveIndex calls under any schedule that lets all calls of the batch
+   return (PConc, [phases_quiet]) and batches killed after any prefix of any schedule, the
+   store reopened (PConcCrash).  Then index.json is exactly what
+   saveIndex would write from the resolver now: no completed Tag, Untag or manifest Push is
+   missing from it, whatever the interleaving of the resolver updates, snapshots and renames
+   was (the last publisher took its snapshot after every other call's resolver update). *)
+Theorem C10_conc_quiescent_synced :
+  forall (H : list N -> N) (shuffle : nat -> list entry -> list entry),
+    (forall c l e, In e (shuffle c l) <-> In e l) ->
+    forall ps : list phase,
+      phases_quiet H shuffle src_inplace src_unlink_first init ps = true ->
+      let s := run_phases H shuffle src_inplace src_unlink_first init ps in
+      exists l, read_index (sfs s) = Some l /\ forall e, In e l <-> In e (save (stags s) (sdigs s)).
+Proof. exact conc_quiescent_synced_src. Qed.
+Print Assumptions C10_conc_quiescent_synced.
+
+(* ... and the sequential model's invariant is back at that point: after any such history, and
+   any further operations some of which were interrupted (and the store reopened), a crash at any
+   cut of any operation is Recoverable, and so is every configuration of every schedule of a
+   further batch of concurrent calls. *)
+Theorem C10_conc_phases_crash_safe :
+  forall (H : list N -> N) (shuffle : nat -> list entry -> list entry),
+    (forall c l e, In e (shuffle c l) <-> In e l) ->
+    forall (ps : list phase) (h : list hop),
+      phases_quiet H shuffle src_inplace src_unlink_first init ps = true ->
+      let s := runc H shuffle src_inplace src_unlink_first true h
+                    (run_phases H shuffle src_inplace src_unlink_first init ps) in
+      (forall o k, Recoverable H (sfs s) (crash_fs H shuffle src_inplace src_unlink_first true s o k)
+                               (sfs (run_op H shuffle src_inplace src_unlink_first true s o))) /\
+      (forall calls is,
+         let c := sched shuffle (start H s calls) is in
+         layout_ok (cfs c) /\ blob_ok H (cfs c) /\ index_ok (cfs c) /\
+         (forall d, has (sfs s) (FBlob d) -> has (cfs c) (FBlob d))).
+Proof. exact conc_phases_crash_safe_src. Qed.
+Print Assumptions C10_conc_phases_crash_safe.
+
+(* Completed effects under concurrency: after any such history, a Push that has returned (its
+   batch ran until all calls had returned) has stored its blob, and a manifest that was not there
+   before has its entry in index.json -- whatever ran at the same time. *)
+Theorem C10_conc_completed_push :
+  forall (H : list N -> N) (shuffle : nat -> list entry -> list entry),
+    (forall c l e, In e (shuffle c l) <-> In e l) ->
+    forall (ps : list phase) (calls : list ccall) (is : list nat) (i : nat) (d : N) (cont : list N) (man : bool),
+      phases_quiet H shuffle src_inplace src_unlink_first init ps = true ->
+      let s := run_phases H shuffle src_inplace src_unlink_first init ps in
+      let c := sched shuffle (start H s calls) is in
+      nth_error calls i = Some (CPush d cont man) -> H cont = d -> quietb c = true ->
+      has (cfs c) (FBlob d) /\
+      (exists_file (sfs s) (FBlob d) = false -> man = true ->
+       exists l r, read_index (cfs c) = Some l /\ In (d, r) l).
+Proof. exact conc_completed_push_src. Qed.
+Print Assumptions C10_conc_completed_push.
+
+(* Without indexLock (the same threads, the lock ignored) the first statement is false: two Tag
+   calls, the earlier snapshot published last; both have returned, the resolver has both
+   references, index.json has one. *)
+Theorem C10_conc_refuted_without_indexlock :
+  exists (H : list N -> N) (s : st) (calls : list ccall) (is : list nat),
+    let c := sched_nolock (fun _ l => l) (start H s calls) is in
+    quietb c = true /\ In (11, 1) (ctags c) /\ read_index (cfs c) = Some [(1, Some 10)].
+Proof. exact conc_unsynced_without_indexlock. Qed.
+Print Assumptions C10_conc_refuted_without_indexlock.
+
+(* the hypothesis is satisfiable *)
+Theorem C10_conc_phases_example :
+  let ps := [PSeq [Done (Push 1 [5] true)];
+             PConc [CTag 1 10; CTag 1 11] [0; 1; 0; 1; 0; 0; 0; 1; 1; 1]%nat;
+             PSeq [Crashed (Untag 10) 1; Done (Untag 10)];
+             PConcCrash [CTag 1 12; CSaveIndex] [0; 1; 0]%nat;
+             PConc [CPush 1 [6] false; CSaveIndex] [1; 0; 1; 0; 1; 0]%nat] in
+  phases_quiet (fun _ => 1) (fun _ l => l) src_inplace src_unlink_first init ps = true /\
+  read_index (sfs (run_phases (fun _ => 1) (fun _ l => l) src_inplace src_unlink_first init ps)) = Some [(1, Some 11)].
+Proof. exact phases_example. Qed.
 
 (* Nothing that a reader looks at is ever written in place: every create / truncate /
    write / chmod micro-step of every operation targets a temporary (ingest/<d>_<rnd> or
@@ -222,6 +483,24 @@ Theorem C10_init_restartable :
 Proof. exact init_restartable_src. Qed.
 Print Assumptions C10_init_restartable.
 
+(* ... and for ANY number of interrupted attempts (each oci.New cut at an arbitrary point, the next
+   one started on whatever was left, leftover temporaries included): the directory never makes
+   oci.New fail, and the first attempt that runs to completion leaves a valid oci-layout, an
+   index.json without manifests, blobs/ and no blob. *)
+Theorem C10_init_restartable_many :
+  forall (shuffle : nat -> list entry -> list entry),
+    (forall c l e, In e (shuffle c l) <-> In e l) ->
+    forall (ks : list nat),
+      let fs := fst (init_attempts shuffle src_inplace src_layout_inplace ks empty_fs 0) in
+      let c := snd (init_attempts shuffle src_inplace src_layout_inplace ks empty_fs 0) in
+      let fs' := apply (new_steps shuffle src_inplace src_layout_inplace fs c) fs in
+      new_okb fs = true /\
+      files fs' FLayout = Some (mkFile [ALayout] false) /\
+      files fs' FIndex = Some (mkFile [AIndex []] false) /\
+      (forall d, files fs' (FBlob d) = None) /\ dirs fs' DBlobs = true.
+Proof. exact init_restartable_many_src. Qed.
+Print Assumptions C10_init_restartable_many.
+
 (* oci-layout written in place (the code before the repair): refuted, cut after open(O_TRUNC) *)
 Theorem C10_init_refuted_layout_inplace :
   forall (shuffle : nat -> list entry -> list entry),
@@ -234,12 +513,20 @@ Print Assumptions C10_init_refuted_layout_inplace.
    GC = rebuild, save index, then sweep *)
 Theorem C10_source_order :
   src_inplace = false /\ src_unlink_first = false /\ src_push_order_ok = true /\ src_gc_order_ok = true /\
-  src_layout_inplace = false.
+  src_layout_inplace = false /\ src_guards_ok = true.
 Proof.
   exact (conj src_inplace_false (conj src_unlink_first_false (conj src_push_order
-          (conj src_gc_order src_layout_inplace_false)))).
+          (conj src_gc_order (conj src_layout_inplace_false src_guards))))).
 Qed.
 Print Assumptions C10_source_order.
+
+(* The lock discipline the two models rest on, read off the source: Push / Tag / Untag / SaveIndex
+   hold the read lock for the whole call (the concurrent model's threads), Delete and GC the write
+   lock (sequential operations), saveIndex holds indexLock from before its resolver snapshot until
+   index.json is renamed into place (the concurrent model's critical section). *)
+Theorem C10_source_locks : src_locks_ok = true.
+Proof. exact src_locks. Qed.
+Print Assumptions C10_source_locks.
 
 (* The code before the repair (os.WriteFile on index.json itself, [inplace = true]):
    the theorem is false.  Witness: SaveIndex on the fresh store cut after open(O_TRUNC). *)
@@ -287,6 +574,23 @@ Example C10_gc_example_instance :
   read_index fsk = Some [(2, Some 5)] /\
   exists_file fsk (FBlob 1) = false /\ exists_file fsk (FBlob 3) = true /\ exists_file fsk (FBlob 2) = true.
 Proof. vm_compute. repeat split; reflexivity. Qed.
+
+(* ... and what DOES hold with AutoSaveIndex = false (everything but "every index entry names an
+   existing blob"): at every cut of every operation after every history the layout is valid,
+   every blob file is complete and matches its name, index.json parses and is the one before
+   or the one after, and the blobs lie between before and after.  (No hypothesis on the map
+   order is needed.) *)
+Theorem C10_autosave_off_partial :
+  forall (H : list N -> N) (shuffle : nat -> list entry -> list entry) (h : list op) (o : op) (k : nat),
+    let s := run H shuffle src_inplace src_unlink_first false h init in
+    let fsk := crash_fs H shuffle src_inplace src_unlink_first false s o k in
+    let fs1 := sfs (run_op H shuffle src_inplace src_unlink_first false s o) in
+    layout_ok fsk /\ blob_ok H fsk /\ (exists l, read_index fsk = Some l) /\
+    (read_index fsk = read_index (sfs s) \/ read_index fsk = read_index fs1) /\
+    (forall d, has (sfs s) (FBlob d) -> has fs1 (FBlob d) -> has fsk (FBlob d)) /\
+    (forall d, has fsk (FBlob d) -> has (sfs s) (FBlob d) \/ has fs1 (FBlob d)).
+Proof. exact autosave_off_partial_src. Qed.
+Print Assumptions C10_autosave_off_partial.
 
 (* The hypotheses are satisfiable and the statement is not vacuous: a concrete history
    (push a layer, push a manifest, tag it, delete it cut after the index rename). *)
